@@ -56,7 +56,12 @@ def _data_inplace(name):
 ALL = ["*"]
 ITEMS = ["[]"]
 # fields that hold a container owned exclusively by the object (QobjEvo)
-OWNERSHIP_FIELDS = ("elements", "_feedback_functions", "_solver_only_feedback")
+OWNERSHIP_FIELDS = ("elements", "_feedback_functions", "_solver_only_feedback", "_data")
+# `x.data` is the property over `x._data` (Qobj); one field in the model
+FIELD_ALIAS = {"data": "_data"}
+# variants in which a documented opt-out makes the object adopt a caller's
+# container: the ownership assertions are not emitted there
+NO_OWNERSHIP_ASSERT = {"Qobj.__init__[copy=False]"}
 EVO_FIELDS = ["elements", "_dims", "shape", "_feedback_functions",
               "_solver_only_feedback"]
 
@@ -107,6 +112,48 @@ FUNCS = [
     ("QobjEvo.tidyup", "qutip/core/cy/qobjevo.pyx", "QobjEvo.tidyup", ["self"], None),
     ("QobjEvo._register_feedback", "qutip/core/cy/qobjevo.pyx", "QobjEvo._register_feedback", ["self"], None),
     ("QobjEvo._update_feedback", "qutip/core/cy/qobjevo.pyx", "QobjEvo._update_feedback", ["self"], None),
+    # ---- fourth wave: Qobj constructor (both documented modes) and methods
+    ("Qobj.__init__", "qutip/core/qobj.py", "Qobj.__init__", ["self"], None),
+    ("Qobj.__init__[copy=False]", "qutip/core/qobj.py", "Qobj.__init__", ["self"], None),
+    ("Qobj._initialize_data", "qutip/core/qobj.py", "Qobj._initialize_data", ["self"], None),
+    ("Qobj.tidyup", "qutip/core/qobj.py", "Qobj.tidyup", ["self"], None),
+    ("Qobj.unit[inplace=True]", "qutip/core/qobj.py", "Qobj.unit", ["self"], None),
+    ("Qobj.contract[inplace=True]", "qutip/core/qobj.py", "Qobj.contract", ["self"], None),
+    ("Qobj.copy", "qutip/core/qobj.py", "Qobj.copy", [], None),
+    ("Qobj.to", "qutip/core/qobj.py", "Qobj.to", [], None),
+    ("Qobj.__add__", "qutip/core/qobj.py", "Qobj.__add__", [], None),
+    ("Qobj.__radd__", "qutip/core/qobj.py", "Qobj.__radd__", [], None),
+    ("Qobj.__sub__", "qutip/core/qobj.py", "Qobj.__sub__", [], None),
+    ("Qobj.__rsub__", "qutip/core/qobj.py", "Qobj.__rsub__", [], None),
+    ("Qobj.__mul__", "qutip/core/qobj.py", "Qobj.__mul__", [], None),
+    ("Qobj.__rmul__", "qutip/core/qobj.py", "Qobj.__rmul__", [], None),
+    ("Qobj.__matmul__", "qutip/core/qobj.py", "Qobj.__matmul__", [], None),
+    ("Qobj.__truediv__", "qutip/core/qobj.py", "Qobj.__truediv__", [], None),
+    ("Qobj.__neg__", "qutip/core/qobj.py", "Qobj.__neg__", [], None),
+    ("Qobj.__pow__", "qutip/core/qobj.py", "Qobj.__pow__", [], None),
+    ("Qobj.__call__", "qutip/core/qobj.py", "Qobj.__call__", [], None),
+    ("Qobj.__and__", "qutip/core/qobj.py", "Qobj.__and__", [], None),
+    ("Qobj.dag", "qutip/core/qobj.py", "Qobj.dag", [], None),
+    ("Qobj.conj", "qutip/core/qobj.py", "Qobj.conj", [], None),
+    ("Qobj.trans", "qutip/core/qobj.py", "Qobj.trans", [], None),
+    ("Qobj.proj", "qutip/core/qobj.py", "Qobj.proj", [], None),
+    ("Qobj.unit", "qutip/core/qobj.py", "Qobj.unit", [], None),
+    ("Qobj.expm", "qutip/core/qobj.py", "Qobj.expm", [], None),
+    ("Qobj.logm", "qutip/core/qobj.py", "Qobj.logm", [], None),
+    ("Qobj.sqrtm", "qutip/core/qobj.py", "Qobj.sqrtm", [], None),
+    ("Qobj.cosm", "qutip/core/qobj.py", "Qobj.cosm", [], None),
+    ("Qobj.sinm", "qutip/core/qobj.py", "Qobj.sinm", [], None),
+    ("Qobj.inv", "qutip/core/qobj.py", "Qobj.inv", [], None),
+    ("Qobj.ptrace", "qutip/core/qobj.py", "Qobj.ptrace", [], None),
+    ("Qobj.permute", "qutip/core/qobj.py", "Qobj.permute", [], None),
+    ("Qobj.transform", "qutip/core/qobj.py", "Qobj.transform", [], None),
+    ("Qobj.contract", "qutip/core/qobj.py", "Qobj.contract", [], None),
+    ("Qobj.dual_chan", "qutip/core/qobj.py", "Qobj.dual_chan", [], None),
+    # ---- fifth wave: floquet / heom front ends
+    ("FloquetBasis.__init__", "qutip/solver/floquet.py", "FloquetBasis.__init__", ["self"], None),
+    ("fsesolve", "qutip/solver/floquet.py", "fsesolve", [], None),
+    ("fmmesolve", "qutip/solver/floquet.py", "fmmesolve", [], None),
+    ("heomsolve", "qutip/solver/heom/bofin_solvers.py", "heomsolve", [], None),
     # ---- second wave
     ("MultiTrajSolver.__init__", "qutip/solver/multitraj.py", "MultiTrajSolver.__init__", ["self"], None),
     ("_StochasticRHS.__init__", "qutip/solver/stochastic.py", "_StochasticRHS.__init__", ["self"], None),
@@ -163,6 +210,8 @@ INLINE = {
     ("MultiTrajResult.merge", "self.__class__"): ("MultiTrajResult.__init__", "new"),
     ("MultiTrajResult.__init__", "super().__init__"): ("_BaseResult.__init__", "self"),
     ("MultiTrajResult.__init__", "._post_init"): ("MultiTrajResult._post_init", "self"),
+    ("Qobj.__init__", "._initialize_data"): ("Qobj._initialize_data", "self"),
+    ("Qobj.__init__[copy=False]", "._initialize_data"): ("Qobj._initialize_data", "self"),
     ("QobjEvo.__init__", ".arguments"): ("QobjEvo.arguments", "self"),
     ("QobjEvo.__init__", ".compress"): ("QobjEvo.compress", "self"),
 }
@@ -191,6 +240,12 @@ def S(mut=(), ret=("new", []), contract=None, probe=None, fallback=None, mut_pat
 
 # branches not covered (documented ownership transfer), by function
 ASSUME = {
+    # the two documented modes of the Qobj constructor
+    "Qobj.__init__": {"copy": True},
+    "Qobj.__init__[copy=False]": {"copy": False},
+    # in-place modes are documented: separate variants with `self` owned
+    "Qobj.unit": {"inplace": False}, "Qobj.unit[inplace=True]": {"inplace": True},
+    "Qobj.contract": {"inplace": False}, "Qobj.contract[inplace=True]": {"inplace": True},
     "Propagator.__init__": {"isinstance(system, MultiTrajSolver)": False,
                             "isinstance(system, HEOMSolver)": False,
                             "isinstance(system, Solver)": False},
@@ -198,9 +253,10 @@ ASSUME = {
 # exit assertions: on every normal exit of the function these fields of the
 # variable hold containers created during the call (what the constructor
 # summary `RNew EVO_FIELDS` claims)
-EXIT_ASSERT = {"QobjEvo.__init__": ("self", OWNERSHIP_FIELDS)}
+EXIT_ASSERT = {"QobjEvo.__init__": ("self", ("elements", "_feedback_functions", "_solver_only_feedback")),
+               "Qobj.__init__": ("self", ("_data",))}
 # functions that are only inlined, never an obligation of their own
-INLINE_ONLY = {"MultiTrajResult._post_init"}
+INLINE_ONLY = {"MultiTrajResult._post_init", "Qobj._initialize_data"}
 
 
 NEW = ("new", [])
@@ -221,6 +277,38 @@ SUMMARIES = {
     "NotImplementedError": S(), "getattr": S(ret=OLD),
     "warnings.warn": S(), "np.*": S(), "numbers.*": S(), "itertools.product": S(),
     "_data.*": S(probe="data_fresh"), "scipy.*": S(),
+    # _data.to(type, x) returns x itself when it already has that type;
+    # _data.create(x, copy=False) returns x itself when it is a Data
+    "_data.to": S(ret=("argornew", 1), probe="data_to_create"),
+    "_data.create": S(ret=("argornew", 0), probe="data_to_create"),
+    "_data.create[copy]": S(probe="data_to_create"),
+    "_data.to.parse": S(),
+    # ---- fifth wave
+    ".U": S(mut_path=[(0, "U", ["times", "props", "invs", "solver", "args", "cte", "unitary"])],
+            probe="propagator_call"),
+    "FloquetBasis": S(contract=("FloquetBasis.__init__", [])),
+    "fsesolve": S(contract=("fsesolve", [])),
+    "HEOMSolver": S(contract=("HEOMSolver.__init__", [])),
+    "FMESolver": S(contract=("FMESolver.__init__", [])),
+    # the Propagator memoisation inside a FloquetBasis is a cache; values are probed
+    ".to_floquet_basis": S(probe="floquet_basis_methods"), ".from_floquet_basis": S(probe="floquet_basis_methods"),
+    ".mode": S(probe="floquet_basis_methods"), ".state": S(probe="floquet_basis_methods"),
+    "Result": S(probe="result_ctor_add"), "FloquetResult": S(probe="result_ctor_add"),
+    ".add": S(mut=[(0, ALL)], probe="result_ctor_add"),
+    "_data.eigs": S(ret=("new", ["[]"])),
+    # in Qobj.to the conversion is only reached when the type differs (guards above it)
+    "_data.to@Qobj.to": S(probe="qobj_to"),
+    ".__neg__": S(contract=("Qobj.__neg__", [])), "complex": S(),
+    ".__add__": S(contract=("Qobj.__add__", [])), ".__mul__": S(contract=("Qobj.__mul__", [])),
+    ".__matmul__": S(contract=("Qobj.__matmul__", [])),
+    "qutip.vector_to_operator": S(probe="state_helpers"), "qutip.operator_to_vector": S(probe="state_helpers"),
+    # return their argument itself when it already has the representation
+    "qutip.to_choi": S(ret=("argornew", 0), probe="superop_reps_fresh"),
+    "qutip.to_super": S(ret=("argornew", 0), probe="superop_reps_fresh"),
+    "qutip.to_kraus": S(probe="superop_reps_fresh"), "qutip.tensor_swap": S(probe="superop_reps_fresh"),
+    "flatten": S(), "unflatten": S(), "enumerate_flat": S(), "collapse_dims_super": S(),
+    "collapse_dims_oper": S(), "deep_remove": S(), "dims_idxs_to_tensor_idxs": S(),
+    "dims_to_tensor_perm": S(), "dims_to_tensor_shape": S(),
     "_data.INPLACE": S(mut=[(0, ALL)], ret=("arg", 0), probe="data_inplace"),
     "column_stack_dense": S(mut=[(0, ["shape"])], ret=("arg", 0), probe="reshape_kernels"),
     "column_unstack_dense": S(mut=[(0, ["shape"])], ret=("arg", 0), probe="reshape_kernels"),
@@ -229,7 +317,8 @@ SUMMARIES = {
     "qutip.tensor": S(),
     "spre": S(probe="spre_fresh"), "spost": S(probe="spre_fresh"),
     "sprepost": S(probe="spre_fresh"),
-    "Qobj": S(probe="qobj_ctor"),
+    "Qobj": S(ret=("new", ["_data"]), probe="qobj_ctor", contract=("Qobj.__init__", [])),
+    "qutip.Qobj": S(ret=("new", ["_data"]), probe="qobj_ctor", contract=("Qobj.__init__", [])),
     "QobjEvo": S(ret=("new", EVO_FIELDS), probe="qobjevo_ctor", contract=("QobjEvo.__init__", [])),
     "coefficient": S(probe="coefficient_fresh"),
     "_ConstantElement": S(), "_EvoElement": S(), "_FuncElement": S(),
@@ -518,6 +607,7 @@ class Compiler:
         self.rename = {}
         self.failed = set()
         self.assume = ASSUME.get(fname, {}) if not prefix else {}
+        self.root_fname = fname
 
     # -- helpers
     def v(self, name):
@@ -565,6 +655,8 @@ class Compiler:
             base = f.value
             if isinstance(base, ast.Name) and base.id == "_data" and _data_inplace(f.attr):
                 return "_data.INPLACE", None      # iadd_dense, imul_*, tidyup*, *(inplace=...)
+            if isinstance(base, ast.Name) and base.id == "_data" and f.attr in ("create", "to"):
+                return "_data." + f.attr, None
             if isinstance(base, ast.Name) and base.id in ("_data", "np", "numbers", "scipy"):
                 return base.id + ".*", None
             if isinstance(base, ast.Attribute) and isinstance(base.value, ast.Name) \
@@ -614,8 +706,9 @@ class Compiler:
         if isinstance(e, ast.Attribute):
             b = self.expr(e.value, out)
             t = self.temp()
-            self.fields.add(e.attr)
-            self.assign(out, t, "ELoad %s %s" % (q(b), q(e.attr)))
+            attr = FIELD_ALIAS.get(e.attr, e.attr)
+            self.fields.add(attr)
+            self.assign(out, t, "ELoad %s %s" % (q(b), q(attr)))
             return t
         if isinstance(e, ast.Subscript):
             b = self.expr(e.value, out)
@@ -652,6 +745,10 @@ class Compiler:
                 self.assign(out, t, "EChoice %s %s" % (q(cur), q(nxt)))
                 cur = t
             return cur
+        if isinstance(e, ast.IfExp) and ast.unparse(e.test) in self.assume:
+            self.notes.append("conditional expression decided by assumption: %s is %s" % (
+                ast.unparse(e.test), self.assume[ast.unparse(e.test)]))
+            return self.expr(e.body if self.assume[ast.unparse(e.test)] else e.orelse, out)
         if isinstance(e, ast.IfExp):
             self.expr(e.test, out)
             a_out, b_out = [], []
@@ -769,8 +866,9 @@ class Compiler:
                 t = self.temp()
                 self.assign(out, t, self.call_ir(s["mut"], NEW, [b, val]))
             else:
-                self.fields.add(tg.attr)
-                if tg.attr in OWNERSHIP_FIELDS:
+                attr = FIELD_ALIAS.get(tg.attr, tg.attr)
+                self.fields.add(attr)
+                if attr in OWNERSHIP_FIELDS and self.root_fname not in NO_OWNERSHIP_ASSERT:
                     # representation invariant: these fields only ever receive a
                     # container created here (never one that belongs to another
                     # object).  Encoded as a callee that writes nothing to its
@@ -778,7 +876,7 @@ class Compiler:
                     # unless `val` is certainly a new object.
                     t = self.temp()
                     self.assign(out, t, self.call_ir([(0, [])], NEW, [val]))
-                out.append("SStore %s %s %s" % (q(b), q(tg.attr), q(val)))
+                out.append("SStore %s %s %s" % (q(b), q(attr), q(val)))
         elif isinstance(tg, ast.Subscript):
             b = self.expr(tg.value, out)
             if not isinstance(tg.slice, ast.Slice):
@@ -803,6 +901,35 @@ class Compiler:
         inl = INLINE.get((self.fname, key))
         if inl is not None:
             return self.inline(inl, e, recv, out)
+        def kw_truth(name):
+            """None: keyword absent; True/False: decided; "?": dynamic"""
+            for k in e.keywords:
+                if k.arg == name:
+                    if isinstance(k.value, ast.Constant):
+                        return bool(k.value.value)
+                    txt = ast.unparse(k.value)
+                    if txt in self.assume:
+                        return bool(self.assume[txt])
+                    return "?"
+            return None
+        if key == "_data.create" and kw_truth("copy") in (None, True):
+            key = "_data.create[copy]"
+        if key in ("Qobj", "qutip.Qobj"):
+            cp = kw_truth("copy")
+            if len(e.args) >= 3 and cp is None:
+                cp = "?"                                  # copy passed positionally
+            if cp in (False, "?") and e.args:
+                # Qobj(x, ..., copy=False): the new Qobj adopts x as its data, so
+                # x has to be an object created in this function
+                a0 = self.expr(e.args[0], out)
+                ta = self.temp()
+                self.assign(out, ta, self.call_ir([(0, [])], NEW, [a0]))
+                for x in list(e.args[1:]) + [k.value for k in e.keywords]:
+                    self.expr(x, out)
+                t = self.temp()
+                self.assign(out, t, self.call_ir([], ("new", ["_data"]), [a0]))
+                self.probes.add("qobj_ctor")
+                return t
         full = "%s@%s" % (key, self.fname)
         s = SUMMARIES.get(full) or SUMMARIES.get(key)
         if s is None:
@@ -882,6 +1009,8 @@ class Compiler:
                        prefix="%s%s#%d." % (self.prefix, cname.split(".")[0], self.ntemp[0]))
         sub.ntemp = self.ntemp
         sub.failed = self.failed
+        sub.assume = self.assume
+        sub.root_fname = self.root_fname
         if selfvar != "new":
             sub.rename["self"] = self.v("self")
         ca = cfn.args
@@ -1001,10 +1130,11 @@ class Compiler:
             elif isinstance(tg, ast.Attribute):
                 b = self.expr(tg.value, out)
                 t = self.temp()
-                self.fields.add(tg.attr)
-                self.assign(out, t, "ELoad %s %s" % (q(b), q(tg.attr)))
+                attr = FIELD_ALIAS.get(tg.attr, tg.attr)
+                self.fields.add(attr)
+                self.assign(out, t, "ELoad %s %s" % (q(b), q(attr)))
                 self.aug(t, val, out, ro)
-                out.append("SStore %s %s %s" % (q(b), q(tg.attr), q(t)))
+                out.append("SStore %s %s %s" % (q(b), q(attr), q(t)))
             elif isinstance(tg, ast.Subscript):
                 b = self.expr(tg.value, out)
                 self.expr(tg.slice, out)
@@ -1215,8 +1345,9 @@ def coq_ident(name, extra=()):
     return "fn_" + s
 
 
-OWNED_FIELDS = {   # containers owned together with an owned QobjEvo `self`
+OWNED_FIELDS = {   # containers owned together with an owned `self`
     "QobjEvo": ["elements", "_feedback_functions", "_solver_only_feedback"],
+    "Qobj": ["_data"],
 }
 
 
